@@ -192,19 +192,31 @@ struct Reader {
     }
     return t;
   }
-  template <class T> typename std::enable_if<std::is_integral<T>::value || std::is_enum<T>::value>::type f(const char *, T &v) {
+  // a field that is not the next token keeps its default value: saved cases survive the addition of new fields
+  bool have(const char *n) {
+    if (p >= tok.size()) return false;
+    const std::string &t = tok[p];
+    size_t e = t.find('=');
+    return e != std::string::npos && t.compare(0, e, n) == 0 && strlen(n) == e;
+  }
+  template <class T> typename std::enable_if<std::is_integral<T>::value || std::is_enum<T>::value>::type f(const char *n, T &v) {
+    if (!have(n)) return;
     std::string t = nextval();
     if (t.size() > 2 && t[0] == '0' && (t[1] == 'x' || t[1] == 'X'))
       v = (T)strtoull(t.c_str(), nullptr, 16);
     else
       v = (T)strtoll(t.c_str(), nullptr, 10);
   }
-  void f(const char *, double &v) { v = strtod(nextval().c_str(), nullptr); }
-  void f(const char *, std::string &v) {
+  void f(const char *n, double &v) {
+    if (have(n)) v = strtod(nextval().c_str(), nullptr);
+  }
+  void f(const char *n, std::string &v) {
+    if (!have(n)) return;
     v = nextval();
     if (v == "-") v.clear();
   }
-  template <class T> typename std::enable_if<std::is_integral<T>::value>::type f(const char *, std::vector<T> &v) {
+  template <class T> typename std::enable_if<std::is_integral<T>::value>::type f(const char *nm, std::vector<T> &v) {
+    if (!have(nm)) return;
     size_t n = (size_t)strtoull(nextval().c_str(), nullptr, 10);
     v.resize(n);
     for (size_t i = 0; i < n; i++) {
@@ -215,13 +227,15 @@ struct Reader {
         v[i] = (T)strtoll(t.c_str(), nullptr, 10);
     }
   }
-  template <class T> typename std::enable_if<std::is_class<T>::value>::type f(const char *, std::vector<T> &v) {
+  template <class T> typename std::enable_if<std::is_class<T>::value>::type f(const char *nm, std::vector<T> &v) {
+    if (!have(nm)) return;
     size_t n = (size_t)strtoull(nextval().c_str(), nullptr, 10);
     v.resize(n);
     for (size_t i = 0; i < n; i++) v[i].io(*this);
   }
-  template <class T> typename std::enable_if<std::is_class<T>::value && !std::is_same<T, std::string>::value>::type f(const char *, T &v) {
+  template <class T> typename std::enable_if<std::is_class<T>::value && !std::is_same<T, std::string>::value>::type f(const char *nm, T &v) {
     // "name=<" : the token "name=" has an empty value; nested fields follow
+    if (!have(nm)) return;
     if (p < tok.size() && tok[p].back() == '=') p++;
     v.io(*this);
   }
